@@ -615,8 +615,9 @@ class Engine(object):
             sig = (sp.exit, sp.ret, stores,
                    tuple((e.kind, e.callee, tuple(e.args) if e.args is not None else None, e.addr,
                           e.val, e.field, e.cond, e.taken, id(e.ins)) for e in evs))
-            conds = tuple((c, v) for (c, v) in sp.conds
-                          if not any(a[0] == 'alloca' and a[1] == f.name for a in atoms_of(c)))
+            # conditions about the callee's own stack objects are kept: events that survive (the
+            # release of a local container's buffer in its destructor) are guarded by them
+            conds = tuple(sp.conds)
             # paths are merged only when they are indistinguishable including their conditions
             # (conditions are what guard rules read)
             sig = sig + (frozenset(conds),)
